@@ -117,6 +117,12 @@ macro_rules! backends {
             fn poll_shutdown(self: Pin<&mut Self>, cx: &mut Context<'_>) -> Poll<std::io::Result<()>> {
                 match self.get_mut() { $(AnyStream::$v(s) => Pin::new(s).poll_shutdown(cx)),* }
             }
+            fn poll_write_vectored(self: Pin<&mut Self>, cx: &mut Context<'_>, bufs: &[std::io::IoSlice<'_>]) -> Poll<std::io::Result<usize>> {
+                match self.get_mut() { $(AnyStream::$v(s) => Pin::new(s).poll_write_vectored(cx, bufs)),* }
+            }
+            fn is_write_vectored(&self) -> bool {
+                match self { $(AnyStream::$v(s) => s.is_write_vectored()),* }
+            }
         }
     };
 }
